@@ -2,7 +2,7 @@
 import json, os
 from vlib import core
 
-THEOREMS = ["Props.C06." + t for t in ["const_value", "const_value_named", "const_value_fails_escaped_quote", "const_value_fails_foreign_struct_literal", "const_value_fails_optional_enum_member", "const_reject_iff", "kind_mismatch_rejected", "container_tolerance", "string_literal_emission", "string_literal_value", "string_literal_plain", "string_literal_defects", "newX_defaults", "initDefault_zero_eq_newX", "getter_default", "getter_set", "isset_optional_default", "isset_pointer", "predicate_tables_sound"]]
+THEOREMS = ["Props.C06." + t for t in ["const_value", "const_value_named", "regression_escaped_quote", "regression_foreign_struct_literal", "regression_optional_enum_member", "const_value_fails_struct_member_by_ident", "const_reject_iff", "kind_mismatch_rejected", "container_tolerance", "string_literal_emission", "quoteBody_clauses", "string_literal_value", "string_literal_plain", "string_literal_regressions", "newX_defaults", "initDefault_zero_eq_newX", "getter_default", "getter_set", "isset_optional_default", "isset_pointer", "predicate_tables_sound"]]
 
 def run(ctx):
     exe = ctx.go_build("c06")
